@@ -43,6 +43,11 @@ def shards(tier, seed):
     out.append(("pem", dict(kind="pem", count=1500 if q else 40000)))
     out.append(("child_struct_priv", dict(kind="struct", cname="SECP112r2", grp="priv", _pyopt="opt+hashseed")))
     out.append(("child_struct_sig", dict(kind="struct", cname="BRAINPOOLP160r1", grp="sig", _pyopt="hashseed")))
+    # python -bb: str() of a bytes object raises BytesWarning - error paths that format their input must still end in the documented exception
+    out.append(("child_bb_struct_pub", dict(kind="struct", cname="SECP112r2", grp="pub", _pyopt="bb")))
+    out.append(("child_bb_struct_priv", dict(kind="struct", cname="SECP112r2", grp="priv", _pyopt="bb")))
+    out.append(("child_bb_struct_sig", dict(kind="struct", cname="SECP112r2", grp="sig", _pyopt="bb+hashseed")))
+    out.append(("child_bb_pem", dict(kind="pem", count=300 if q else 4000, _pyopt="bb")))
     for i in range(2 if q else 8):
         out.append(("concurrent_loaders_%d" % i, dict(kind="concurrent", runs=120 if q else 1500)))
         out.append(("first_use_loaders_%d" % i, dict(kind="first_use", runs=40 if q else 400)))
